@@ -238,7 +238,8 @@ class C13(PropertyCheck):
     drivers = ["drv_transpile"]
     theorems = ["QipVerif.C13." + t for t in (
         "source_is_repaired", "native_valid", "rule_stays_on_qubits", "rule_shapes", "resolve_stays_on_qubits",
-        "transpile_native", "transpile_coupled", "transpile_coupled_partial", "transpile_refuses", "transpile_den",
+        "transpile_native", "transpile_coupled", "transpile_coupled_partial", "transpile_refuses", "routing_stage_den",
+        "transpile_den", "transpile_den_partial",
         "C13_counterexample_toffoli_linear", "C13_counterexample_toffoli_ring", "C13_counterexample_fredkin_scqubits",
         "toffoli_repaired")]
     technique = ("Lean 4: composition of the routing model (C07) and the decomposition model (C03) exactly as "
@@ -251,18 +252,19 @@ class C13(PropertyCheck):
                   "gates on distinct in-range qubits: the output contains only native gates and GLOBALPHASE/IDLE markers; any "
                   "two distinct qubits of any output gate are directly coupled (neighbours on the open chain, neighbours or "
                   "the wrap pair on the ring, any pair through the cavity); a circuit of expressible gates is never refused and "
-                  "a circuit with an inexpressible gate always is; the unitary over C (denG) is preserved: the decomposition "
-                  "stages by C03.resolve_den_partial, the routing stage as the one named hypothesis RouteStageDen "
-                  "(C-instantiation of C07.route_den along the conversion of gate types). The code as found "
+                  "a circuit with an inexpressible gate always is; the unitary over C (denG: ordered product of the embedded "
+                  "library matrices, global phase included) is preserved for every valuation of the symbolic angles - the "
+                  "decomposition stages by C03.resolve_den_partial, the routing stage by C07's toChain_den_C transported along "
+                  "the conversion of gate types (routing_stage_den); no hypothesis about matrices is left. The code as found "
                   "violates the coupling clause for three-qubit gates (counter-examples decided by the kernel and confirmed on "
                   "the real code); for circuits without them the clause is proved for the code as found as well "
                   "(transpile_coupled_partial). Model and code are compared gate for gate: every placement of every library "
                   "gate on 1-5 qubits on each device, random circuits, malformed circuits.")
     level_note = ("Trusted: Lean kernel (propext, Classical.choice, Quot.sound); py/translate/devices.py (ast extraction of "
                   "native_gates / topology_map / transpile, cross-checked against the live objects every run) and "
-                  "py/translate/decomp.py; the harness py/props/c13.py. transpile_den uses C03.resolve_den_partial and takes the "
-                  "routing stage over C as the explicit hypothesis RouteStageDen (C07.route_den_C exists for C07's own "
-                  "interpretation of router gates; the bridge to denG along toRoute/ofRoute is not proved here).")
+                  "py/translate/decomp.py; the harness py/props/c13.py. transpile_den composes C03.resolve_den_partial and "
+                  "C07's toChain_den_C; side condition phOK (a PHASEGATE with a FIXED angle is a multiple of pi/4, inherited "
+                  "from C03's exact angle representation).")
     trusted_base = [
         "Lean 4.33 kernel; axioms propext, Classical.choice, Quot.sound; decide / decide +kernel for table facts and counter-examples",
         "py/translate/devices.py (ast: native_gates literals, topology_map setup strings, the two recognised shapes of transpile), "
@@ -273,7 +275,7 @@ class C13(PropertyCheck):
         "py/props/c13.py harness",
     ]
     assumptions = ["circuits consist of gates without classical controls and contain no measurement (resolve_gates refuses those)",
-                   "transpile_den: hypothesis RouteStageDen (routing stage preserves denG); PHASEGATE with a fixed angle is a multiple of pi/4 (C03's phOK)"]
+                   "transpile_den: a PHASEGATE with a fixed angle is a multiple of pi/4 (C03's phOK); symbolic angles unrestricted"]
     rule = ("case = (device, register size, gate list with placements and exact/symbolic angles); distinct by canonical JSON; "
             "non-trivial = the circuit is rewritten or refused (output differs from the input list)")
 
